@@ -24,6 +24,14 @@ pub fn cts_lengths(bs: usize, par: usize, tier: Tier) -> Vec<usize> {
             }
         }
     }
+    if bs <= 16 {
+        // long messages: past 16, 32, 64 and 256 blocks, boundary residues
+        for n in [17usize, 33, 65, 257] {
+            for r in [0, 1, bs / 2, bs - 1] {
+                v.insert(n * bs + r);
+            }
+        }
+    }
     v.into_iter().collect()
 }
 
